@@ -91,11 +91,20 @@ def collapse_probe(res, rng, tier, bad):
         except Exception as ex:
             bad.append(dict(failed="collapse could not be recorded with the %s trace back-end (%s: %s)" % (backend, type(ex).__name__, ex), case=dict(model=mname))); continue
         if backend == "memory":
-            nev = len(log.events.get("collapse", []))
+            held = list(log.events.get("collapse", []))
         else:
             import yaml
             evs = yaml.safe_load(open(os.path.join(tmproot, log.event_log))) or []
-            nev = sum(1 for e in evs if "removed" in e)
+            held = [e for e in evs if "removed" in e]
+        nev = len(held)
+        # every held collapse event says when, which state, the rate and the random numbers that decided it
+        for e in held:
+            ok_e = isinstance(e, dict) and all(f in e for f in ("time", "removed", "gamma", "eta")) and len(e["eta"]) == 2 \
+                   and e["removed"] in (0, 1) and float(e["eta"][e["removed"]]) < float(e["gamma"])
+            res.count("collapse-event-fields/" + backend)
+            if not ok_e:
+                bad.append(dict(failed="a collapse is recorded as an event holding its time, the removed state, the rate and the random numbers drawn, the same in every trace store (%s back-end holds %r)" % (backend, e), case=dict(model=mname, backend=backend)))
+                break
         res.count("collapse/" + backend, state["collapsed"])
         if nev != state["recorded"]:
             bad.append(dict(failed="the trace store holds exactly the collapse events recorded on it by its own trajectory (%d recorded, %d held, %s back-end, trace %d created in this process)" % (state["recorded"], nev, backend, k), case=dict(model=mname)))
